@@ -426,17 +426,23 @@ func runORD08(p *Prog, r *RuleRun) {
 			case "os.OpenFile":
 				nOpen++
 				key := cx.Key(ins, "os.OpenFile")
-				fl, ok := ci.Common().Args[1].(*ssa.Const)
+				var flags int64
+				ok := false
+				if fl, isC := ci.Common().Args[1].(*ssa.Const); isC {
+					flags, ok = fl.Int64(), true
+				} else if a := cx.Eval(ci.Common().Args[1], f); a.K == avInt {
+					flags, ok = a.N, true // a constant handed down through a helper's parameter
+				}
 				oCreate, ok1 := depConstInt(p, "os", "O_CREATE")
 				oExcl, ok2 := depConstInt(p, "os", "O_EXCL")
 				if !ok1 || !ok2 {
 					r.Unknown(key, posOf(p, ins), "os.O_CREATE / os.O_EXCL not found for the target platform")
 				} else if !ok {
 					r.Unknown(key, posOf(p, ins), "open flags are not a compile-time constant")
-				} else if v := fl.Int64(); v&oCreate != 0 && v&oExcl != 0 {
+				} else if v := flags; v&oCreate != 0 && v&oExcl != 0 {
 					r.OK(key, posOf(p, ins), fmt.Sprintf("flags %#x contain O_CREATE|O_EXCL (%#x|%#x on this platform)", v, oCreate, oExcl))
 				} else {
-					r.Fail(key, posOf(p, ins), fmt.Sprintf("new segment files must be created exclusively: flags %#x lack O_CREATE|O_EXCL, an existing file would be silently reused", fl.Int64()))
+					r.Fail(key, posOf(p, ins), fmt.Sprintf("new segment files must be created exclusively: flags %#x lack O_CREATE|O_EXCL, an existing file would be silently reused", flags))
 				}
 			case "fileutil.Preallocate":
 				key := cx.Key(ins, "Preallocate")
